@@ -100,13 +100,14 @@ def eval (F : Facts) : List String → Option String
   | _ => none
 
 /-- `drv` lines serve several properties: each disagreement is attributed to the one it concerns -/
-def judgeDrv (e : String) (impl : List String) : String :=
+def judgeDrv (e : String) (impl : List String) (strayFirst : Bool := false) : String :=
   match e.splitOn " ", impl with
   | [eo, et, er], [io, it, ir] =>
     let cs : List String :=
       (if io = eo then []
        else if io = "ok" ∨ io = "wrong-result" then [s!"C03 the call reported a result ({io}) on the basis of a datagram it must not accept; expected: {e}"]
-       else [s!"C09 the call failed ({io}) although an acceptable reply arrived before its deadline; expected: {e}"]) ++
+       else [s!"C09 the call failed ({io}) although an acceptable reply arrived before its deadline; expected: {e}"] ++
+            (if strayFirst then [s!"C03 the call failed ({io}) instead of skipping the datagrams it must not accept and waiting for the reply that followed; expected: {e}"] else [])) ++
       (if it = et then [] else [s!"C09 the call returned in time class {it}; expected: {e}"]) ++
       (if ir = er then [] else [s!"C06 {ir}; expected: {e}"])
     if cs.isEmpty then "ok" else "bad " ++ " | ".intercalate cs
@@ -114,7 +115,11 @@ def judgeDrv (e : String) (impl : List String) : String :=
 
 def spec (c impl : List String) : Option String :=
   match c with
-  | "drv" :: _ => (eval idealFacts c).map fun e => if e = "unspecified" then "unspecified" else judgeDrv e impl
+  | "drv" :: _ =>
+      -- datagrams the call must skip arrived before the first acceptable one
+      let arr := (c.dropWhile (· ≠ "|")).drop 1
+      let strayFirst := !(arr.takeWhile fun a => !a.endsWith ":valid").isEmpty
+      (eval idealFacts c).map fun e => if e = "unspecified" then "unspecified" else judgeDrv e impl strayFirst
   | "slow-connect" :: _ => (eval idealFacts c).map fun e =>
       if impl = e.splitOn " " then "ok"
       else s!"bad C09 a call to a controller that connects late and never answers fails one timeout after it was made; expected: {e}"
